@@ -34,7 +34,7 @@ P = {
     "specdir": "pools",
     "design": [
         {"module": "I_Pools", "cfg": "MC_I_Pools_quick.cfg", "thorough_cfg": "MC_I_Pools.cfg", "workers": 4,
-         "heap": "4g", "timeout": 600, "thorough_timeout": 2400},
+         "heap": "4g", "timeout": 600, "thorough_timeout": 2400, "allow_zero": ("IReconcileFail",)},
     ],
     "gen": {"module": "Gen_Pools", "cfg": "Gen_cover.cfg", "thorough_cfg": "Gen_cover3.cfg", "workers": 1,
             "max": 2500, "thorough_max": 60000, "timeout": 600, "thorough_timeout": 2400},
@@ -45,15 +45,19 @@ P = {
     "signature": signature,
     "nontrivial": nontrivial,
     "rule": "behaviours = for every reachable abstract state (pools x blocks) of the generator model a shortest "
-            "history reaching it followed by Reconcile (TLC, VIEW + ACTION_CONSTRAINT; quick: 2 pools over "
-            "{A, B in A, E apart} x 2 block spots with creation-stamp ties, thinned by seed; thorough: 3 pools), "
+            "history reaching it followed by Reconcile - plain, and with the status write of one pool rejected by the API "
+            "server (at most one such pass per history) - (TLC, VIEW + ACTION_CONSTRAINT; quick: 2 pools over "
+            "{A, B in A, E apart} x 1 block spot with creation-stamp ties, thinned by seed; thorough: 3 pools), "
             "TLC -simulate walks of 24 steps for 3 pools over the 5-CIDR laminar family, and seeded random "
-            "histories over 3-6 pools, 12 IPv4/IPv6 CIDRs and 11 block spots; a trace is non-trivial if a "
+            "histories over 3-6 pools, 12 IPv4/IPv6 CIDRs and 11 block spots with passes in which the status writes of 1-2 "
+            "pools are rejected (usually followed by the retry); a trace is non-trivial if a "
             "reconcile ran on a snapshot holding a terminating pool or left an enabled, non-deleting pool "
             "Allocatable=False; distinct = distinct event sequences",
     "assumptions": [
-        "the informer caches equal the API server state when Reconcile starts (atomic on the snapshot) and "
-        "API writes succeed; stale caches and failing writes are outside the property's quantifier",
+        "the informer caches equal the API server state when Reconcile starts (atomic on the snapshot); status "
+        "(condition) writes may be rejected with a conflict, finalizer writes succeed; a pass with rejected writes is "
+        "accepted iff it would be accepted had those writes landed (the rest of what it wrote is judged as is), and "
+        "the passes after it are judged in full",
         "API-server semantics (resourceVersion conflicts, status sub-resource, delete vs finalizers) are "
         "emulated by the driver's miniature API server and re-checked in TLA+ at every environment step",
         "allocatable = accepted by IPAM's pool filter (enabled, not deleting, not Allocatable=False)",
@@ -72,6 +76,14 @@ def run(ctx):
                      "thorough_simulate": {"num": 4000, "depth": 30}, "timeout": 600}
         P2["n_random"] = (0, 0)
         pipeline.standard_check(ctx, P2)
+    if not ctx.quick and not ctx.replay and not ctx.violations:
+        # thorough: every reachable state of the 2-pool model WITH one rejected status write
+        P3 = dict(P)
+        P3["design"] = []
+        P3["gen"] = {"module": "Gen_Pools", "cfg": "Gen_cover.cfg", "workers": 1, "thorough_max": 30000,
+                     "thorough_timeout": 2400}
+        P3["n_random"] = (0, 0)
+        pipeline.standard_check(ctx, P3)
 
 
 def _overlap(a, b):
@@ -137,6 +149,23 @@ def selftest(ctx):
                         e["pools"] = [x for x in e["pools"] if x is not p]
                         return evs
 
+    def promoted_in_failed_pass(evs):
+        # in a pass whose status write on a terminating pool was rejected, an overlapping masked pool is promoted
+        for e in evs:
+            if e["ev"] == "reconcile" and e.get("failed"):
+                for t in e["pools"]:
+                    if t["name"] in e["failed"] and t["deleting"] and not t["disabled"]:
+                        for q in e["pools"]:
+                            if q is not t and _eligible(q) and q["cond"] == "F" and _overlap(t["cidr"], q["cidr"]):
+                                q["cond"], q["fin"] = "T", True
+                                return evs
+
+    def error_without_fault(evs):
+        for e in evs:
+            if e["ev"] == "reconcile" and e.get("failed"):
+                e["failed"] = []
+                return evs
+
     def drop_delete(evs):
         for i, e in enumerate(evs):
             if e["ev"] == "delete":
@@ -144,7 +173,7 @@ def selftest(ctx):
 
     def failed_reconcile(evs):
         for e in evs:
-            if e["ev"] == "reconcile":
+            if e["ev"] == "reconcile" and not e.get("failed"):
                 e["err"] = "injected"
                 return evs
 
@@ -155,8 +184,9 @@ def selftest(ctx):
     return pipeline.corruption_selftest(ctx, P, [(n, deep(f)) for n, f in [
         ("second_allocatable", second_allocatable), ("displaced", displaced), ("unmasked", unmasked),
         ("finalizer_lost", finalizer_lost), ("finalized_with_blocks", finalized_with_blocks),
-        ("drop_delete", drop_delete), ("failed_reconcile", failed_reconcile)]],
-        n_random=60)
+        ("drop_delete", drop_delete), ("failed_reconcile", failed_reconcile),
+        ("promoted_in_failed_pass", promoted_in_failed_pass), ("error_without_fault", error_without_fault)]],
+        n_random=400)
 
 
 MANIFEST = dict(
